@@ -328,8 +328,9 @@ def run_case(case, repo_checks=True):
                 fs.files[_path(i)] = bytearray(data[start:])
                 rec['fileobj'] = _path(i)
             elif t['src'] == 'seek':
-                rec['fileobj'] = fakefs.SeekableSource(
-                    sched, trace, faults, data, start, i)
+                cls = (fakefs.PlainSeekableSource if t.get('plain')
+                       else fakefs.SeekableSource)
+                rec['fileobj'] = cls(sched, trace, faults, data, start, i)
             else:
                 rec['fileobj'] = fakefs.NonSeekableSource(
                     sched, trace, faults, data, start, i)
@@ -373,9 +374,14 @@ def run_case(case, repo_checks=True):
         rec['subs'] = subs
         return rec
 
+    shared_extra = {}
+
     def submit(mgr, rec, src_client):
         t = rec['spec']
         extra = dict(t.get('extra') or {})
+        if case.get('shared_extra'):
+            # the caller passes one and the same dictionary to every call
+            extra = shared_extra
         api('submit.begin', t=rec['i'])
         try:
             if t['type'] == 'upload':
